@@ -53,6 +53,8 @@ def gen_settings(rng, fault_mode):
 def gen_program(rng, prop, tier, run_index):
     fault_mode = bool(rng.random() < 0.45)
     n = int(rng.choice([1, 2, 3, 5, 8, 12], p=[0.1, 0.2, 0.25, 0.2, 0.15, 0.1]))
+    if tier == 'quick':
+        n = min(n, 8)
     convex = bool(rng.random() < 0.6)
     cfg = {'family': 'Qc' if convex else 'Qi', 'n': n,
            'cond': float(10.0 ** rng.uniform(0, 3 if convex else 5)),
@@ -70,7 +72,7 @@ def gen_program(rng, prop, tier, run_index):
     if cfg['nneg'] > 0:
         cfg['qscale'] = max(cfg['qscale'], 1e-2)
         # an unbounded direction needs bounds or the quartic to stay bounded below: quartic does it
-    nops = int(rng.integers(1, 5))
+    nops = int(rng.integers(1, 4 if tier == 'quick' else 5))
     ops = []
     for k in range(nops):
         r = rng.random()
